@@ -140,6 +140,9 @@ func poolCommands(i int) (cmds []wire.Op, prep []wire.Op) {
 		{Kind: "mget", Keys: []string{k("h"), k("m"), k("h2")}},
 		{Kind: "mget", Keys: []string{k("h"), k("h"), k("m"), k("m")}},
 		{Kind: "mget", Keys: []string{k("m"), k("h2"), k("h"), k("h2")}},
+		// binary pipelines: quiet keys closed by a plain get, and all-quiet closed by a no-op
+		{Kind: "mget", Keys: []string{k("h"), k("m"), k("h2"), k("h")}, Quiet: []bool{true, true, true, false}},
+		{Kind: "mget", Keys: []string{k("h2"), k("h"), k("m")}, Quiet: []bool{true, true, true}, NoopEnd: true},
 	}
 	return
 }
